@@ -33,6 +33,7 @@ type liveInst struct {
 	lpos      []*int
 	kpos      []*int
 	log       *execLog // log of the execution in progress
+	built     map[string]failsafe.Policy[int] // policies are built once per history and shared by its executions, as users do
 }
 
 type applier interface {
@@ -154,9 +155,17 @@ func buildBreakerBuilder(b circuitbreaker.CircuitBreakerBuilder[int], calls []BC
 
 func buildPolicies(st []PolD, li *liveInst) []failsafe.Policy[int] {
 	log := func() *execLog { return li.log }
+	if li.built == nil {
+		li.built = map[string]failsafe.Policy[int]{}
+	}
 	var ps []failsafe.Policy[int]
 	for pos, p := range st {
 		pos, p := pos, p
+		memo := fmt.Sprint(pos, " ", p.Gallina())
+		if pol, ok := li.built[memo]; ok && (p.K == "Retry" || p.K == "Timeout" || p.K == "Fallback" || p.K == "Cache" || p.K == "Hedge") {
+			ps = append(ps, pol)
+			continue
+		}
 		switch p.K {
 		case "Retry":
 			b := applyHandle(retrypolicy.Builder[int](), p.Handle)
@@ -243,6 +252,7 @@ func buildPolicies(st []PolD, li *liveInst) []failsafe.Policy[int] {
 				OnResultCached(func(e failsafe.ExecutionEvent[int]) { log().attempt("Cached", pos, e.ExecutionAttempt, 0) })
 			ps = append(ps, b.Build()) // (a built cache policy shares its builder's configuration: not touched afterwards)
 		}
+		li.built[memo] = ps[len(ps)-1]
 	}
 	return ps
 }
